@@ -376,6 +376,26 @@ pub fn c19(ctx: &mut Ctx) {
             Err(pi) => l.subject_panic("compound", &pi, || format!("{:?}", ms)),
         }
     });
+    // ... and in compounds of every member count up to a bound (see gens::dense_bound), the third-party and unknown
+    // members cycling; the list ends unpadded / padded
+    {
+        let max = ctx.tier.pick(1200u64, 4096);
+        ctx.bound("every member count", format!("compounds of every count 1..={} of third-party / unknown members (C14's oracle: size, bytes, parse-back to one packet per member)", max));
+        let pool: Vec<Member> = vec![menu[0].clone(), menu[1].clone(), menu[3].clone(), menu[5].clone(), menu[10].clone()];
+        let last_padded = menu[2].clone();
+        ctx.run_space("embedded-in-compounds-of-every-size", max * 2, |idx, l| {
+            let n = (idx / 2) as usize + 1;
+            let mut ms: Vec<Member> = (0..n).map(|i| pool[(i * 3 + i / 16 + n) % pool.len()].clone()).collect();
+            if idx % 2 == 1 {
+                ms.pop();
+                ms.push(last_padded.clone());
+            }
+            match guard::catch(|| c14_case(&ms, l)) {
+                Ok(()) => {}
+                Err(pi) => l.subject_panic("compound", &pi, || format!("{} members", ms.len())),
+            }
+        });
+    }
     ctx.require_hit("header helper ok");
     ctx.require_hit("header field readers ok");
     ctx.require_hit("padding helper ok");
